@@ -55,6 +55,7 @@ type Case struct {
 	S      string            `json:"s,omitempty"`
 	Src    map[string]string `json:"src,omitempty"`
 	Parts  []*Case           `json:"parts,omitempty"`
+	G      string            `json:"g,omitempty"`
 }
 
 type Exported struct {
@@ -75,6 +76,8 @@ func (c *Case) sig() string {
 		return c.T + ":" + c.C
 	case "struct":
 		return "struct:" + c.S
+	case "replay":
+		return "replay:" + c.G
 	case "mix":
 		var ks []string
 		for k, v := range c.Src {
@@ -772,7 +775,32 @@ func (tc *tamperCtx) donor(f string, cur []byte, wantProposed bool) []byte {
 	return nil
 }
 
+var replayGroups = map[string][]string{"seed": {"seed"}, "proof": {"proof"}, "seedpair": {"seed", "proof"}, "roots": {"root", "idroot"},
+	"bodyhdr": {"txhash", "bloom", "ipfs", "rcid"}, "flags": {"flags"}, "fee": {"fee"},
+	"derived": {"seed", "proof", "root", "idroot", "txhash", "bloom", "ipfs", "rcid", "flags", "fee"}}
+
+// replayDonor: the nearest earlier PROPOSED block of the same proposer key, at most maxWarm heights back (the validator of a
+// replay case is warmed up from that block on: it validates and inserts the donor and everything after it itself).
+const maxWarm = 8
+
+func (tc *tamperCtx) replayDonor(b *types.Block) *types.Block {
+	for i := len(tc.cb.blocks) - 1; i >= 0; i-- {
+		x := tc.cb.blocks[i]
+		if x.Height() >= tc.o.Height || x.Header.ProposedHeader == nil {
+			continue
+		}
+		if x.Height()+maxWarm < tc.o.Height {
+			break
+		}
+		if bytes.Equal(x.Header.ProposedHeader.ProposerPubKey, b.Header.ProposedHeader.ProposerPubKey) {
+			return x
+		}
+	}
+	return nil
+}
+
 type built struct {
+	warmFrom uint64 // > 0: the validator must have validated and inserted the blocks from this height on itself
 	blk   *types.Block // tampered (decoded, not yet re-encoded)
 	base  *types.Block // honest block with the same inputs, when there is one
 	na    string       // non-empty: not applicable to this original
@@ -785,6 +813,28 @@ func (tc *tamperCtx) applyOne(cur *built, c *Case, first bool) {
 	proposed := b.Header.ProposedHeader != nil
 	switch c.T {
 	case "none":
+	case "replay":
+		if !proposed {
+			cur.na = "empty block"
+			return
+		}
+		d := tc.replayDonor(b)
+		if d == nil {
+			cur.na = "no earlier block of this proposer within reach"
+			return
+		}
+		for _, f := range replayGroups[c.G] {
+			v := getField(d, f)
+			if f == "flags" {
+				old := binary.BigEndian.Uint32(getField(b, f))
+				v = u32((old &^ derivedFlagMask) | (binary.BigEndian.Uint32(v) & derivedFlagMask))
+			}
+			if f == "fee" && len(v) == 0 {
+				continue // an absent rate is a free choice of its own (case fee_absent)
+			}
+			setField(b, f, v)
+		}
+		cur.warmFrom = d.Height()
 	case "field":
 		val := getField(b, c.F)
 		isPropOnly := c.F == "proof" || c.F == "fee" || c.F == "txhash" || c.F == "bloom" || c.F == "ipfs" || c.F == "rcid"
@@ -1200,6 +1250,9 @@ type runner struct {
 	node     *sim.Node // node under test (nil: take a fresh one)
 	nodeOrig *Original
 	nodeUses int
+	nodeWarm uint64 // the node under test was warmed up from this height (0: booted over the parent's database)
+	nodeKey  int
+	warmRefs map[string][]string
 }
 
 // wipe empties the database of a node that is no longer used.  InitializeChain starts a goroutine that
@@ -1224,6 +1277,39 @@ func (r *runner) fresh(o *Original, key int) *sim.Node {
 	n := r.cb.w.Boot(key, sim.CopyDB(o.Snap), nil)
 	if n.BootErr != nil {
 		panic(n.BootErr)
+	}
+	r.cb.w.SetNow(o.Now)
+	return n
+}
+
+// warm boots a node over the database as it was BEFORE the block of height `from` and lets it validate and insert the
+// honest blocks from..o.Height-1 itself, each at the time it travelled: a validator that has followed the chain in
+// this process, with whatever that leaves in its memory.
+func (r *runner) warm(o *Original, key int, from uint64) *sim.Node {
+	var start *Original
+	for _, x := range r.cb.origs {
+		if x.Height == from {
+			start = x
+		}
+	}
+	if start == nil {
+		panic("no original at the warm-up height")
+	}
+	n := r.cb.w.Boot(key, sim.CopyDB(start.Snap), nil)
+	if n.BootErr != nil {
+		panic(n.BootErr)
+	}
+	for _, x := range r.cb.origs {
+		if x.Height < from || x.Height >= o.Height {
+			continue
+		}
+		r.cb.w.SetNow(x.Now)
+		if _, err := n.Chain.ValidateBlock(sim.Decode(x.Bytes), nil, collector.NewStatsCollector()); err != nil {
+			panic(fmt.Sprintf("warm-up: honest block %d refused by ValidateBlock: %v", x.Height, err))
+		}
+		if err := n.Chain.AddBlock(sim.Decode(x.Bytes), nil, collector.NewStatsCollector()); err != nil {
+			panic(fmt.Sprintf("warm-up: honest block %d refused by AddBlock: %v", x.Height, err))
+		}
 	}
 	r.cb.w.SetNow(o.Now)
 	return n
@@ -1317,8 +1403,15 @@ func (r *runner) runCase(o *Original, ex *Exported, idx int, vkey int) {
 	}
 	// A node is used for up to `batch` consecutive cases as long as every attempt on it was rejected; then
 	// (or when the original changes) the honest original is inserted on it.  batch = 1: a fresh node per case.
-	reuse := r.node != nil
-	if !reuse {
+	if bt.warmFrom > 0 {
+		// a replay case needs a validator that has itself validated the donor block: the node of the earlier cases is
+		// finished first, the warm node serves this one case
+		r.finishNode()
+		r.node, r.nodeOrig, r.nodeUses = r.warm(o, vkey, bt.warmFrom), o, r.batch
+		r.nodeWarm, r.nodeKey = bt.warmFrom, vkey
+	}
+	reuse := r.node != nil && bt.warmFrom == 0
+	if r.node == nil {
 		r.node, r.nodeOrig, r.nodeUses = r.fresh(o, vkey), o, 0
 	}
 	n := r.node
@@ -1326,7 +1419,7 @@ func (r *runner) runCase(o *Original, ex *Exported, idx int, vkey int) {
 	pre := obs(n)
 	bodyBytes := sim.Decode(data).Body.ToBytes()
 	r.out.Emit(tr.M{"ev": "Begin", "orig": o.ID, "case": idx, "kind": o.Kind, "c": c, "sig": c.sig(), "diff": diff, "pre": pre, "vkey": vkey,
-		"h": o.Height, "reuse": reuse})
+		"h": o.Height, "reuse": reuse, "warm": bt.warmFrom})
 	v := offer(o.Kind, func() error {
 		_, err := n.Chain.ValidateBlock(sim.Decode(data), nil, collector.NewStatsCollector())
 		return err
@@ -1339,7 +1432,11 @@ func (r *runner) runCase(o *Original, ex *Exported, idx int, vkey int) {
 	if v.R == "panic" {
 		// the node object may be wedged (mutexes): continue on a fresh one
 		wipe(n)
-		r.node, r.nodeUses = r.fresh(o, vkey), 0
+		if r.nodeWarm > 0 {
+			r.node = r.warm(o, vkey, r.nodeWarm)
+		} else {
+			r.node, r.nodeUses = r.fresh(o, vkey), 0
+		}
 		n = r.node
 	}
 	// every second case goes in the way the full-sync loader inserts (protocol/full.go): with an explicit
@@ -1369,7 +1466,7 @@ func (r *runner) runCase(o *Original, ex *Exported, idx int, vkey int) {
 	if a.R == "accept" {
 		// what was stored, compared with the honest block the new head claims (by hash) to be
 		hh := n.Chain.Head.Hash()
-		if raw := o.honestByHash()[hh]; raw != nil {
+		if raw := o.honestByHash()[hh]; raw != nil && r.nodeWarm == 0 {
 			if tw := r.twin(o, vkey, hh, raw); tw != nil {
 				addLine["twin"] = tw
 				addLine["twin_is"] = o.honestName(hh)
@@ -1404,7 +1501,7 @@ func (r *runner) runCase(o *Original, ex *Exported, idx int, vkey int) {
 	} else {
 		// something went in (a control, a free choice - or a violation): this node is spent
 		wipe(n)
-		r.node = nil
+		r.node, r.nodeWarm = nil, 0
 	}
 }
 
@@ -1418,10 +1515,29 @@ func (r *runner) finishNode() {
 	i := offer(o.Kind, func() error {
 		return n.Chain.AddBlock(sim.Decode(o.Bytes), nil, collector.NewStatsCollector())
 	})
-	r.out.Emit(tr.M{"ev": "Insert", "r": i.R, "err": i.Err, "post": obs(n), "after": r.nodeUses})
+	line := tr.M{"ev": "Insert", "r": i.R, "err": i.Err, "post": obs(n), "after": r.nodeUses}
+	if r.nodeWarm > 0 {
+		// a warmed-up node keeps node-specific records of the blocks it inserted itself: its reference is a node warmed
+		// up the same way that was offered nothing but the honest original
+		k := fmt.Sprintf("%d/%d/%d", o.ID, r.nodeKey, r.nodeWarm)
+		if r.warmRefs == nil {
+			r.warmRefs = map[string][]string{}
+		}
+		if r.warmRefs[k] == nil {
+			w := r.warm(o, r.nodeKey, r.nodeWarm)
+			if err := w.Chain.AddBlock(sim.Decode(o.Bytes), nil, collector.NewStatsCollector()); err != nil {
+				panic(fmt.Sprintf("original %d rejected by a clean warmed-up node: %v", o.ID, err))
+			}
+			r.warmRefs[k] = obs(w)
+			wipe(w)
+		}
+		line["ref"] = r.warmRefs[k]
+		r.cnt["warm_nodes"]++
+	}
+	r.out.Emit(line)
 	r.cnt["insert_"+i.R]++
 	wipe(n)
-	r.node = nil
+	r.node, r.nodeWarm = nil, 0
 }
 
 func main() {
